@@ -58,6 +58,7 @@ def skip_jv(t, i):
 
 class C05(Spec):
     pid = "C05"
+    confirm_timing = True        # a slow answer on a loaded machine is measured again alone before it counts
     groups = ["vnet"]
     title = "Network faults end in a timely error, never in partial data, a hang or a crash"
     raw_compare = False
@@ -179,6 +180,9 @@ class C05(Spec):
             if ms > hops * 2 * T * 1000 + SLACK_MS:
                 return "fetch took %d ms with fault %s, more than %d hops x 2 x %ds" % (ms, case.meta.get("fault"), hops, T)
         return None
+
+    def is_timing_reason(self, why):
+        return why.startswith("fetch took ")
 
     def nontrivial(self, case, res):
         return case.meta.get("fault") is not None
